@@ -5,8 +5,8 @@
    directly after the emit it completes), "exit" (the lexer's run has ended) and
    "ret" (what the caller saw: ok/err/panic/hang, root set, lexer goroutines left).
    Every event must be a step of the intended mechanism (YangLexerMC with
-   EofIsTerminator and DrainOnAbort): the items are the ones LStep produces on that
-   text, an item nobody received is legal only as one discarded by a stopping
+   EofIsTerminator and DrainOnAbort): the significant items (all but Separator) are
+   the ones LStep produces on that text, Separator items are optional silent steps, an item nobody received is legal only as one discarded by a stopping
    parser, the lexer has ended when Parse returns, success follows EOF.  Where
    the code and RFC 6020 differ on token boundaries without any bearing on C07
    (flags wec, lce of YangLexer) either behaviour is accepted here; C10 judges
@@ -15,55 +15,87 @@ EXTENDS YangLexer, Json, TLC
 CONSTANT TraceFile, MaxFail
 Trace == ndJsonDeserialize(TraceFile)
 
-VARIABLES l, nfail, runs, inp, L, lastRecv, drained, bad
-tvars == <<l, nfail, runs, inp, L, lastRecv, drained, bad>>
+VARIABLES l, nfail, runs, inp, L, lastRecv, drained, bad,
+          sep       \* separators: [floor: where the last significant item ended, pend: a Separator item sent and not yet received]
+tvars == <<l, nfail, runs, inp, L, lastRecv, drained, bad, sep>>
 
 FlagSets == {[eof |-> TRUE, wec |-> w, lce |-> c] : w \in BOOLEAN, c \in BOOLEAN}
+Sep0 == [floor |-> 0, pend |-> NoItem]
+
+(* What is compared is the lexer's stream of SIGNIFICANT items (everything but Separator): type, extent, order.
+   Whether, and in how many pieces, a run of blanks travels over the channel is internal step granularity of the
+   implementation, not part of C07: the model's own Separator items are skipped (NextSig), and a Separator item of
+   the code is a silent step that only has to be a non-empty run of separator characters lying between the last
+   significant item and the next one, after any earlier such item.  The k-th receive is written directly after the
+   k-th emit (FIFO is all that is assumed of the channel: with a buffered channel the emits run ahead of the
+   receives in time, the pairing is the same).                                                                     *)
+RECURSIVE NextSig(_, _, _)
+NextSig(M0, t, F) == LET M == RunToEmit(M0, t, F) IN
+                     IF Blocked(M) /\ M.pend.typ = "Separator" THEN NextSig(Took(M), t, F) ELSE M
 
 TInit == /\ l = 1 /\ nfail = 0 /\ runs = 0 /\ inp = << >> /\ L = L0
-         /\ lastRecv = "none" /\ drained = FALSE /\ bad = FALSE
+         /\ lastRecv = "none" /\ drained = FALSE /\ bad = FALSE /\ sep = Sep0
 
 AddFail(f) == /\ nfail' = nfail + 1
               /\ (nfail >= MaxFail \/ PrintT("FAILJSON " \o ToJson(f)))
-\* where the intended lexer stands (state function it is in, or the item it offers)
-Where == LET M == RunToEmit(IF Blocked(L) THEN Took(L) ELSE L, inp, Intended) IN
-         IF Blocked(M) THEN "offers:" \o M.pend.typ ELSE M.fn
-Failure(e, what) == [id |-> e.id, at |-> l, what |-> what, ev |-> e.ev, typ |-> e.typ, where |-> Where, depth |-> L.depth > 0]
-Fail(e, what) == AddFail(Failure(e, what)) /\ bad' = TRUE /\ UNCHANGED <<inp, L, lastRecv, drained, runs>>
-Skip == UNCHANGED <<nfail, inp, L, lastRecv, drained, bad, runs>>
-
-TReset == /\ Trace[l].ev = "init"
-          /\ inp' = Trace[l].text /\ L' = L0 /\ lastRecv' = "none" /\ drained' = FALSE /\ bad' = FALSE
-          /\ runs' = runs + 1 /\ UNCHANGED nfail
-
 \* an item still pending was not received: a stopping parser discarded it
 Base == IF Blocked(L) THEN Took(L) ELSE L
+\* where the intended lexer stands (state function it is in, or the significant item it offers next)
+Where == LET M == NextSig(Base, inp, Intended) IN
+         IF Blocked(M) THEN "offers:" \o M.pend.typ ELSE M.fn
+Failure(e, what) == [id |-> e.id, at |-> l, what |-> what, ev |-> e.ev, typ |-> e.typ, where |-> Where, depth |-> L.depth > 0]
+Fail(e, what) == AddFail(Failure(e, what)) /\ bad' = TRUE /\ UNCHANGED <<inp, L, lastRecv, drained, runs, sep>>
+Skip == UNCHANGED <<nfail, inp, L, lastRecv, drained, bad, runs, sep>>
+Unreceived == Blocked(L) \/ sep.pend.typ # "none"
+
+TReset == /\ Trace[l].ev = "init"
+          /\ inp' = Trace[l].text /\ L' = L0 /\ lastRecv' = "none" /\ drained' = FALSE /\ bad' = FALSE /\ sep' = Sep0
+          /\ runs' = runs + 1 /\ UNCHANGED nfail
+
+\* a Separator item of the code: a silent step
+SepOk(e) == LET nxt == {NextSig(Base, inp, F) : F \in FlagSets}
+                lim == {IF Blocked(M) THEN M.pend.pos ELSE Len(inp) : M \in nxt} IN
+            /\ e.pos >= sep.floor /\ e.pos < e.end /\ e.end <= Len(inp)
+            /\ \A i \in (e.pos + 1)..e.end : IsSep(inp[i])
+            /\ \E m \in lim : e.end <= m
 
 TEmit == /\ Trace[l].ev = "emit"
          /\ IF bad THEN Skip
             ELSE LET e == Trace[l]
-                     good == {M \in {RunToEmit(Base, inp, F) : F \in FlagSets} : Blocked(M) /\ M.pend = Item(e.typ, e.pos, e.end)}
+                     good == {M \in {NextSig(Base, inp, F) : F \in FlagSets} : Blocked(M) /\ M.pend = Item(e.typ, e.pos, e.end)}
                  IN IF L.fn = "done" THEN Fail(e, "emit-after-exit")
+                    ELSE IF e.typ = "Separator"
+                    THEN IF ~SepOk(e) THEN Fail(e, "separator-item-is-not-a-run-of-blanks-between-items")
+                         ELSE /\ sep' = [floor |-> e.end, pend |-> Item(e.typ, e.pos, e.end)]
+                              /\ drained' = (drained \/ Unreceived)
+                              /\ L' = Base
+                              /\ UNCHANGED <<nfail, inp, lastRecv, bad, runs>>
                     ELSE IF good = {} THEN Fail(e, "emit-not-the-item-of-the-model")
                     ELSE /\ L' = CHOOSE M \in good : TRUE
-                         /\ drained' = (drained \/ Blocked(L))
+                         /\ drained' = (drained \/ Unreceived)
+                         /\ sep' = [floor |-> e.end, pend |-> NoItem]
                          /\ UNCHANGED <<nfail, inp, lastRecv, bad, runs>>
 
 TRecv == /\ Trace[l].ev = "recv"
          /\ IF bad THEN Skip
             ELSE LET e == Trace[l] IN
-                 IF ~Blocked(L) \/ L.pend # Item(e.typ, e.pos, e.end) THEN Fail(e, "recv-not-the-item-sent")
+                 IF e.typ = "Separator"
+                 THEN IF sep.pend # Item(e.typ, e.pos, e.end) THEN Fail(e, "recv-not-the-item-sent")
+                      ELSE IF drained THEN Fail(e, "recv-after-stop")
+                      ELSE sep' = [sep EXCEPT !.pend = NoItem] /\ UNCHANGED <<nfail, inp, L, lastRecv, drained, bad, runs>>
+                 ELSE IF ~Blocked(L) \/ L.pend # Item(e.typ, e.pos, e.end) THEN Fail(e, "recv-not-the-item-sent")
                  ELSE IF drained THEN Fail(e, "recv-after-stop")
-                 ELSE L' = Took(L) /\ lastRecv' = e.typ /\ UNCHANGED <<nfail, inp, drained, bad, runs>>
+                 ELSE L' = Took(L) /\ lastRecv' = e.typ /\ UNCHANGED <<nfail, inp, drained, bad, runs, sep>>
 
 TExit == /\ Trace[l].ev = "exit"
          /\ IF bad THEN Skip
             ELSE LET e == Trace[l]
-                     good == {M \in {RunToEmit(Base, inp, F) : F \in FlagSets} : ~Blocked(M) /\ M.fn = "done"}
+                     good == {M \in {NextSig(Base, inp, F) : F \in FlagSets} : ~Blocked(M) /\ M.fn = "done"}
                  IN IF L.fn = "done" THEN Fail(e, "exit-twice")
                     ELSE IF good = {} THEN Fail(e, "exit-before-the-end")
                     ELSE /\ L' = CHOOSE M \in good : TRUE
-                         /\ drained' = (drained \/ Blocked(L))
+                         /\ drained' = (drained \/ Unreceived)
+                         /\ sep' = [sep EXCEPT !.pend = NoItem]
                          /\ UNCHANGED <<nfail, inp, lastRecv, bad, runs>>
 
 TRet == /\ Trace[l].ev = "ret"
